@@ -164,7 +164,7 @@ PATH_MAX = 4096
 
 def deep_comps(rng, total, width=None):
     """Components 'x…<i>' whose '/'-join is at least `total` bytes long."""
-    width = width or rng.choice([40, 100, 100, 200, 250])
+    width = width or rng.choice([200, 250, 254, 254])
     comps, n = [], 0
     while n < total:
         c = ('x' * width + str(len(comps)))[:255]
@@ -176,8 +176,8 @@ def deep_sequence(rng):
     """Entries whose pathnames are PATH_MAX .. 3*PATH_MAX long (edit_deep_directories: the writer chdir()s
     into intermediate directories), with a component that cannot be created or entered at a varying depth."""
     opts = [o for o in OPTS if rng.random() < 0.4]
-    total = rng.choice([PATH_MAX - 10, PATH_MAX, PATH_MAX + 1, PATH_MAX + 500, 2 * PATH_MAX - 20, 2 * PATH_MAX + 300,
-                        3 * PATH_MAX - 5, 3 * PATH_MAX + 100])
+    total = rng.choice([PATH_MAX - 10, PATH_MAX, PATH_MAX + 1, PATH_MAX + 500, 2 * PATH_MAX - 20, 2 * PATH_MAX - 20,
+                        2 * PATH_MAX + 300, 2 * PATH_MAX + 300, 3 * PATH_MAX + 100])
     comps = deep_comps(rng, total)
     ops, mt = [], 1000000
     kind = rng.choice(['file', 'file', 'dir', 'dir', 'fifo', 'symlink', 'hardlink'])
